@@ -3,9 +3,15 @@ package main
 import (
 	"fmt"
 	"go/ast"
+	"go/token"
 	"sort"
+	"strconv"
 	"strings"
 )
+
+// C13 facts.  Constants are extracted by VALUE (the string a constant denotes), found through the
+// places that USE them (switch cases, call arguments, map literals, index expressions), so that
+// renaming a Go identifier leaves the facts unchanged while changing a value changes them.
 
 func c13Name(x ast.Expr) string {
 	switch v := x.(type) {
@@ -17,24 +23,234 @@ func c13Name(x ast.Expr) string {
 	return "?"
 }
 
-func c13StrList(xs []string) string {
+// Kubernetes API constants used by the anchored code (k8s.io/api core/v1, a stable API; trusted).
+var c13External = map[string]string{
+	"ResourceCPU":                    "cpu",
+	"ResourceMemory":                 "memory",
+	"ResourceDefaultNamespacePrefix": "kubernetes.io/",
+	"PodQOSGuaranteed":               "Guaranteed",
+	"PodQOSBurstable":                "Burstable",
+	"PodQOSBestEffort":               "BestEffort",
+}
+
+const c13ExtDir = "apis/extension"
+
+// c13EvalStr evaluates a constant string expression of package `dir` (identifiers of apis/extension
+// are followed through their declarations).
+func c13EvalStr(e *ext, dir string, x ast.Expr, depth int) (string, bool) {
+	if depth > 20 || x == nil {
+		return "", false
+	}
+	switch v := x.(type) {
+	case *ast.BasicLit:
+		if v.Kind == token.STRING {
+			s, err := strconv.Unquote(v.Value)
+			return s, err == nil
+		}
+	case *ast.ParenExpr:
+		return c13EvalStr(e, dir, v.X, depth+1)
+	case *ast.BinaryExpr:
+		if v.Op == token.ADD {
+			a, ok1 := c13EvalStr(e, dir, v.X, depth+1)
+			b, ok2 := c13EvalStr(e, dir, v.Y, depth+1)
+			return a + b, ok1 && ok2
+		}
+	case *ast.Ident:
+		if y, ok := e.valueSpec(dir, v.Name); ok {
+			return c13EvalStr(e, dir, y, depth+1)
+		}
+		if dir != c13ExtDir {
+			if y, ok := e.valueSpec(c13ExtDir, v.Name); ok {
+				return c13EvalStr(e, c13ExtDir, y, depth+1)
+			}
+		}
+	case *ast.SelectorExpr:
+		if s, ok := c13External[v.Sel.Name]; ok {
+			if y, ok2 := e.valueSpec(c13ExtDir, v.Sel.Name); !ok2 || y == nil {
+				return s, true
+			}
+		}
+		if y, ok := e.valueSpec(c13ExtDir, v.Sel.Name); ok {
+			return c13EvalStr(e, c13ExtDir, y, depth+1)
+		}
+	case *ast.CallExpr: // conversions such as QoSClass("BE")
+		if len(v.Args) == 1 {
+			return c13EvalStr(e, dir, v.Args[0], depth+1)
+		}
+	}
+	return "", false
+}
+
+func c13Bytes(s string) string {
+	parts := make([]string, len(s))
+	for i := 0; i < len(s); i++ {
+		parts[i] = strconv.Itoa(int(s[i]))
+	}
+	return "[" + strings.Join(parts, ", ") + "]"
+}
+
+func c13BytesList(xs []string) string {
 	q := make([]string, len(xs))
 	for i, x := range xs {
-		q[i] = leanStr(x)
+		q[i] = c13Bytes(x)
 	}
 	return "[" + strings.Join(q, ", ") + "]"
 }
 
+func (e *ext) c13Str(dir string, x ast.Expr, what string) string {
+	s, ok := c13EvalStr(e, dir, x, 0)
+	if !ok {
+		e.fail("%s: not a constant string expression", what)
+		return "?"
+	}
+	return s
+}
+
+// c13SwitchTable: the (case value, returned value) pairs of the first switch of a function and the
+// value returned after it.  A clause that returns the switch tag itself is recorded as value ↦ value.
+func c13SwitchTable(e *ext, dir, fn string) (pairs [][2]string, def string) {
+	fd := e.funcDecl(dir, "", fn)
+	if fd == nil || fd.Body == nil {
+		e.fail("%s not found", fn)
+		return nil, "?"
+	}
+	var sw *ast.SwitchStmt
+	for _, st := range fd.Body.List {
+		if s, ok := st.(*ast.SwitchStmt); ok && sw == nil {
+			sw = s
+		}
+	}
+	if sw == nil {
+		e.fail("%s: no switch", fn)
+		return nil, "?"
+	}
+	for _, c := range sw.Body.List {
+		cc := c.(*ast.CaseClause)
+		var ret ast.Expr
+		for _, st := range cc.Body {
+			if r, ok := st.(*ast.ReturnStmt); ok && len(r.Results) == 1 {
+				ret = r.Results[0]
+			}
+		}
+		if ret == nil || cc.List == nil {
+			e.fail("%s: unexpected case clause", fn)
+			continue
+		}
+		for _, cv := range cc.List {
+			v := e.c13Str(dir, cv, fn+" case")
+			if id, ok := ret.(*ast.Ident); ok && sw.Tag != nil && c13Name(sw.Tag) == id.Name {
+				pairs = append(pairs, [2]string{v, v})
+			} else {
+				pairs = append(pairs, [2]string{v, e.c13Str(dir, ret, fn+" result")})
+			}
+		}
+	}
+	sort.Slice(pairs, func(i, j int) bool { return pairs[i][0] < pairs[j][0] })
+	if last, ok := fd.Body.List[len(fd.Body.List)-1].(*ast.ReturnStmt); ok && len(last.Results) == 1 {
+		def = e.c13Str(dir, last.Results[0], fn+" default")
+	} else {
+		e.fail("%s: no final return", fn)
+		def = "?"
+	}
+	return pairs, def
+}
+
+func c13EmitTable(e *ext, name string, pairs [][2]string, def string) {
+	q := make([]string, len(pairs))
+	for i, p := range pairs {
+		q[i] = fmt.Sprintf("(%s, %s)", c13Bytes(p[0]), c13Bytes(p[1]))
+	}
+	fmt.Fprintf(&e.out, "def %s : List (List Nat × List Nat) := [%s]\n", name, strings.Join(q, ", "))
+	fmt.Fprintf(&e.out, "def %sDefault : List Nat := %s\n", name, c13Bytes(def))
+}
+
+// c13IndexKey: the key expression of the first `<something>[key]` whose map expression ends in mapSel.
+func c13IndexKey(e *ext, dir, recv, fn, mapSel string) string {
+	fd := e.funcDecl(dir, recv, fn)
+	if fd == nil || fd.Body == nil {
+		e.fail("%s not found", fn)
+		return "?"
+	}
+	var key ast.Expr
+	ast.Inspect(fd.Body, func(n ast.Node) bool {
+		if ix, ok := n.(*ast.IndexExpr); ok && key == nil && c13Name(ix.X) == mapSel {
+			key = ix.Index
+		}
+		return true
+	})
+	if key == nil {
+		e.fail("%s: no %s[...] expression", fn, mapSel)
+		return "?"
+	}
+	return e.c13Str(dir, key, fn+" key")
+}
+
 func init() {
 	extractors["C13"] = func(e *ext) {
-		d := "apis/extension"
+		d := c13ExtDir
 		for _, n := range []string{"PriorityProdValueMin", "PriorityProdValueMax", "PriorityMidValueMin", "PriorityMidValueMax",
 			"PriorityBatchValueMin", "PriorityBatchValueMax", "PriorityFreeValueMin", "PriorityFreeValueMax"} {
 			e.constInt(d, n, n)
 		}
+		fmt.Fprintf(&e.out, "-- strings are the byte lists of the constants' VALUES\n")
+		// name -> class switches
+		pairs, def := c13SwitchTable(e, d, "GetPodQoSClassByName")
+		c13EmitTable(e, "qosByName", pairs, def)
+		pairs, def = c13SwitchTable(e, d, "GetPodPriorityClassByName")
+		c13EmitTable(e, "pcByName", pairs, def)
+		pairs, def = c13SwitchTable(e, d, "GetPodPriorityClassWithQoS")
+		c13EmitTable(e, "pcOfQoS", pairs, def)
+		pairs, def = c13SwitchTable(e, d, "GetPodQoSClassWithKubeQoS")
+		c13EmitTable(e, "qosOfKubeQoS", pairs, def)
+		// getPriorityClassByPriority: the chain `if p >= Min && p <= Max { return C } else if ...; return Default`
+		var ranges []string
+		rdef := "?"
+		if fd := e.funcDecl(d, "", "getPriorityClassByPriority"); fd == nil || fd.Body == nil {
+			e.fail("getPriorityClassByPriority not found")
+		} else {
+			for _, st := range fd.Body.List {
+				ifs, ok := st.(*ast.IfStmt)
+				if !ok {
+					continue
+				}
+				for ifs != nil {
+					be, ok := ifs.Cond.(*ast.BinaryExpr)
+					if !ok || be.Op != token.LAND {
+						break // the nil guard
+					}
+					lo, ok1 := be.X.(*ast.BinaryExpr)
+					hi, ok2 := be.Y.(*ast.BinaryExpr)
+					var ret ast.Expr
+					if len(ifs.Body.List) == 1 {
+						if r, ok := ifs.Body.List[0].(*ast.ReturnStmt); ok && len(r.Results) == 1 {
+							ret = r.Results[0]
+						}
+					}
+					if !ok1 || !ok2 || lo.Op != token.GEQ || hi.Op != token.LEQ || ret == nil {
+						e.fail("getPriorityClassByPriority: unexpected guard shape")
+						break
+					}
+					a, oka := e.evalInt(d, lo.Y, 0)
+					b, okb := e.evalInt(d, hi.Y, 0)
+					if !oka || !okb {
+						e.fail("getPriorityClassByPriority: bounds not constant")
+					}
+					ranges = append(ranges, fmt.Sprintf("(%d, %d, %s)", a, b, c13Bytes(e.c13Str(d, ret, "range class"))))
+					next, _ := ifs.Else.(*ast.IfStmt)
+					ifs = next
+				}
+			}
+			if last, ok := fd.Body.List[len(fd.Body.List)-1].(*ast.ReturnStmt); ok && len(last.Results) == 1 {
+				rdef = e.c13Str(d, last.Results[0], "range default")
+			}
+		}
+		fmt.Fprintf(&e.out, "def priorityRanges : List (Int × Int × List Nat) := [%s]\n", strings.Join(ranges, ", "))
+		fmt.Fprintf(&e.out, "def priorityRangesDefault : List Nat := %s\n", c13Bytes(rdef))
+
 		// the (QoS, priority classes...) arguments of every forbidSpecialQoSClassAndPriorityClass call
-		var pairs []string
-		fd := e.funcDecl("pkg/webhook/pod/validating", "PodValidatingHandler", "clusterColocationProfileValidatingPod")
+		vd := "pkg/webhook/pod/validating"
+		var forb []string
+		fd := e.funcDecl(vd, "PodValidatingHandler", "clusterColocationProfileValidatingPod")
 		if fd == nil {
 			e.fail("clusterColocationProfileValidatingPod not found")
 		} else {
@@ -42,16 +258,17 @@ func init() {
 				if c, ok := n.(*ast.CallExpr); ok && c13Name(c.Fun) == "forbidSpecialQoSClassAndPriorityClass" && len(c.Args) >= 2 {
 					var pcs []string
 					for _, a := range c.Args[2:] {
-						pcs = append(pcs, c13Name(a))
+						pcs = append(pcs, e.c13Str(vd, a, "forbidden class"))
 					}
 					sort.Strings(pcs)
-					pairs = append(pairs, fmt.Sprintf("(%s, %s)", leanStr(c13Name(c.Args[1])), c13StrList(pcs)))
+					forb = append(forb, fmt.Sprintf("(%s, %s)", c13Bytes(e.c13Str(vd, c.Args[1], "forbidden QoS")), c13BytesList(pcs)))
 				}
 				return true
 			})
-			sort.Strings(pairs)
+			sort.Strings(forb)
 		}
-		fmt.Fprintf(&e.out, "def forbidden : List (String × List String) := [%s]\n", strings.Join(pairs, ", "))
+		fmt.Fprintf(&e.out, "def forbidden : List (List Nat × List (List Nat)) := [%s]\n", strings.Join(forb, ", "))
+
 		// ResourceNameMap
 		var tiers []string
 		if x, ok := e.valueSpec(d, "ResourceNameMap"); !ok {
@@ -61,8 +278,12 @@ func init() {
 		} else {
 			for _, el := range cl.Elts {
 				kv, ok := el.(*ast.KeyValueExpr)
+				if !ok {
+					e.fail("ResourceNameMap: unexpected element")
+					continue
+				}
 				inner, ok2 := kv.Value.(*ast.CompositeLit)
-				if !ok || !ok2 {
+				if !ok2 {
 					e.fail("ResourceNameMap: unexpected element")
 					continue
 				}
@@ -73,13 +294,59 @@ func init() {
 						e.fail("ResourceNameMap: unexpected inner element")
 						continue
 					}
-					ents = append(ents, fmt.Sprintf("(%s, %s)", leanStr(c13Name(ikv.Key)), leanStr(c13Name(ikv.Value))))
+					ents = append(ents, fmt.Sprintf("(%s, %s)", c13Bytes(e.c13Str(d, ikv.Key, "native name")), c13Bytes(e.c13Str(d, ikv.Value, "tier name"))))
 				}
 				sort.Strings(ents)
-				tiers = append(tiers, fmt.Sprintf("(%s, [%s])", leanStr(c13Name(kv.Key)), strings.Join(ents, ", ")))
+				tiers = append(tiers, fmt.Sprintf("(%s, [%s])", c13Bytes(e.c13Str(d, kv.Key, "tier class")), strings.Join(ents, ", ")))
 			}
 			sort.Strings(tiers)
 		}
-		fmt.Fprintf(&e.out, "def resourceNameMap : List (String × List (String × String)) := [%s]\n", strings.Join(tiers, ", "))
+		fmt.Fprintf(&e.out, "def resourceNameMap : List (List Nat × List (List Nat × List Nat)) := [%s]\n", strings.Join(tiers, ", "))
+
+		// mutatePodResourceSpec: the classes compared with `==` in the early return
+		md := "pkg/webhook/pod/mutating"
+		var skip []string
+		if fd := e.funcDecl(md, "PodMutatingHandler", "mutatePodResourceSpec"); fd == nil || fd.Body == nil {
+			e.fail("mutatePodResourceSpec not found")
+		} else {
+			for _, st := range fd.Body.List {
+				if ifs, ok := st.(*ast.IfStmt); ok {
+					ast.Inspect(ifs.Cond, func(n ast.Node) bool {
+						if be, ok := n.(*ast.BinaryExpr); ok && be.Op == token.EQL {
+							skip = append(skip, e.c13Str(md, be.Y, "untranslated class"))
+						}
+						return true
+					})
+					break
+				}
+			}
+			sort.Strings(skip)
+		}
+		fmt.Fprintf(&e.out, "def untranslatedClasses : List (List Nat) := %s\n", c13BytesList(skip))
+
+		// mutateByExtendedResources: the resource names of the summary annotation
+		var sum []string
+		if fd := e.funcDecl(md, "PodMutatingHandler", "mutateByExtendedResources"); fd == nil || fd.Body == nil {
+			e.fail("mutateByExtendedResources not found")
+		} else {
+			ast.Inspect(fd.Body, func(n ast.Node) bool {
+				if c, ok := n.(*ast.CallExpr); ok && c13Name(c.Fun) == "getContainerExtendedResourcesRequirement" && len(c.Args) == 2 {
+					if cl, ok := c.Args[1].(*ast.CompositeLit); ok {
+						for _, el := range cl.Elts {
+							sum = append(sum, e.c13Str(md, el, "summary resource"))
+						}
+					}
+				}
+				return true
+			})
+		}
+		fmt.Fprintf(&e.out, "def summaryResources : List (List Nat) := %s\n", c13BytesList(sum))
+
+		// label / annotation keys, through the index expressions that read them
+		fmt.Fprintf(&e.out, "def labelQoS : List Nat := %s\n", c13Bytes(c13IndexKey(e, d, "", "GetQoSClassByAttrs", "labels")))
+		fmt.Fprintf(&e.out, "def labelPriorityClass : List Nat := %s\n", c13Bytes(c13IndexKey(e, d, "", "GetPodPriorityClassRaw", "Labels")))
+		fmt.Fprintf(&e.out, "def labelPriority : List Nat := %s\n", c13Bytes(c13IndexKey(e, vd, "", "validateImmutablePriority", "Labels")))
+		fmt.Fprintf(&e.out, "def annotationExtendedResourceSpec : List Nat := %s\n", c13Bytes(c13IndexKey(e, d, "", "GetExtendedResourceSpec", "annotations")))
+		fmt.Fprintf(&e.out, "def annotationSkipUpdateResource : List Nat := %s\n", c13Bytes(c13IndexKey(e, d, "", "ShouldSkipUpdateResource", "Annotations")))
 	}
 }
